@@ -28,6 +28,7 @@ type env struct {
 	fvAddrs     map[string]tval // captured variables of a closure: name -> address
 	fvSrc       map[string]ssa.Value // the FreeVar (inside the literal) or the bound Alloc (at the MakeClosure)
 	iterFrom    *ssa.BasicBlock // iteration-ensures: names resolve to values that dominate this back-edge source
+	lenientLocals bool          // at-return: a local without a value on this path is an arbitrary value
 }
 
 type specError string
@@ -363,6 +364,17 @@ func (en *env) ident(name string) tval {
 			}
 		} else if v, ok := en.e.resolveSourceVar(name, en.loop, en.st); ok {
 			return v
+		}
+		if en.lenientLocals {
+			if t := en.e.sourceVarType(name); t != nil {
+				k := "undef_" + name
+				if v, ok := en.names[k]; ok {
+					return v
+				}
+				n := en.e.declareInput(en.st, "undef_"+name, t)
+				en.names[k] = tval{term: n, typ: t}
+				return en.names[k]
+			}
 		}
 	}
 	// package-level constants and variables
@@ -1133,6 +1145,17 @@ func (en *env) callExpr(v *ECall) tval {
 			en.fail("be(s, n): n must be a literal")
 		}
 		k := int(n.lit.v.Int64())
+		if en.e.sortOf(s.typ).kind == skStr {
+			var bs []string
+			for i := 0; i < k; i++ {
+				bs = append(bs, app("strbyte", s.term, bvLit(64, uint64(i))))
+			}
+			term := bs[0]
+			if k > 1 {
+				term = "(concat " + strings.Join(bs, " ") + ")"
+			}
+			return tval{term: term, typ: types.NewArray(types.Typ[types.Uint8], int64(k))}
+		}
 		sl, ok := s.typ.Underlying().(*types.Slice)
 		if !ok {
 			en.fail("be() of %s", s.typ)
@@ -1150,6 +1173,17 @@ func (en *env) callExpr(v *ECall) tval {
 		s := en.eval(v.Args[0])
 		n := en.eval(v.Args[1])
 		k := int(n.lit.v.Int64())
+		if en.e.sortOf(s.typ).kind == skStr {
+			var bs []string
+			for i := k - 1; i >= 0; i-- {
+				bs = append(bs, app("strbyte", s.term, bvLit(64, uint64(i))))
+			}
+			term := bs[0]
+			if k > 1 {
+				term = "(concat " + strings.Join(bs, " ") + ")"
+			}
+			return tval{term: term, typ: types.NewArray(types.Typ[types.Uint8], int64(k))}
+		}
 		sl := s.typ.Underlying().(*types.Slice)
 		var bs []string
 		for i := k - 1; i >= 0; i-- {
@@ -1202,6 +1236,14 @@ func (en *env) callExpr(v *ECall) tval {
 		}
 		if fs.name == ts.name {
 			return tval{term: x.term, typ: t}
+		}
+		if fs.kind == skSlice && ts.kind == skStr {
+			// string(b): the contents of the byte slice in the current memory, as a value
+			if sl, ok := x.typ.Underlying().(*types.Slice); ok {
+				if el, ok := sl.Elem().Underlying().(*types.Basic); ok && el.Kind() == types.Uint8 {
+					return tval{term: en.e.strOf(en.st, x.term), typ: t}
+				}
+			}
 		}
 		en.fail("conversion %s -> %s", x.typ, t)
 	}
@@ -1381,8 +1423,14 @@ func (e *fnEnc) resolveSourceVar(name string, li *loopInfo, st *state) (tval, bo
 	for _, b := range e.fn.Blocks {
 		for _, ins := range b.Instrs {
 			if a, ok := ins.(*ssa.Alloc); ok && a.Comment == name {
-				if t, ok := e.vals[a]; ok {
-					et := a.Type().Underlying().(*types.Pointer).Elem()
+				et := a.Type().Underlying().(*types.Pointer).Elem()
+				if lv, isLocal := st.locals[a]; isLocal {
+					return tval{term: lv, typ: et}, true
+				}
+				if cv, isConst := e.constCell(a); isConst {
+					return tval{term: cv, typ: et}, true
+				}
+				if t, ok := e.vals[a]; ok && t != "LOCAL-CELL" {
 					return tval{term: e.loadValue(st, t, et), typ: et}, true
 				}
 			}
@@ -1449,6 +1497,22 @@ func (e *fnEnc) resolveSourceVar(name string, li *loopInfo, st *state) (tval, bo
 		return tval{term: e.val(best), typ: best.Type()}, true
 	}
 	return tval{}, false
+}
+
+// sourceVarType: the type of a local source variable of the function, if it has one of that name.
+func (e *fnEnc) sourceVarType(name string) types.Type {
+	for _, b := range e.fn.Blocks {
+		for _, ins := range b.Instrs {
+			if d, ok := ins.(*ssa.DebugRef); ok {
+				if obj := d.Object(); obj != nil && obj.Name() == name {
+					if v, ok := obj.(*types.Var); ok {
+						return v.Type()
+					}
+				}
+			}
+		}
+	}
+	return nil
 }
 
 func isConstLike(v ssa.Value) bool {
